@@ -63,7 +63,7 @@ type fsModel struct {
 var FS *fsModel
 
 func resetFS() {
-	FS = &fsModel{ents: map[string]*fsNode{"/": {kind: 'd', ino: 1}}, files: map[*value]*fsFile{}, byFd: map[int]*fsFile{}, nextFd: 3, nextIno: 2}
+	FS = &fsModel{ents: map[string]*fsNode{"/": {kind: 'd', ino: 1}, "/dev": {kind: 'd', ino: 2}, "/dev/null": {kind: 'f', ino: 3, mode: 0666}}, files: map[*value]*fsFile{}, byFd: map[int]*fsFile{}, nextFd: 3, nextIno: 4}
 }
 
 func (m *fsModel) newNode(kind byte) *fsNode {
@@ -148,7 +148,26 @@ func cleanPath(p string) string {
 func pathArg(v value) string {
 	s, ok := v.(string)
 	if !ok {
-		unsupported("filesystem model: symbolic path name")
+		// a path with a few symbolic bytes: concretise them (forks over the feasible values)
+		ss, isSym := v.(symstr)
+		if !isSym {
+			unsupported("filesystem model: path is %T", v)
+		}
+		bs := make([]byte, len(ss.b))
+		nsym := 0
+		for i, b := range ss.b {
+			switch b := b.(type) {
+			case byte:
+				bs[i] = b
+			case symv:
+				nsym++
+				if nsym > 4 {
+					unsupported("filesystem model: more than 4 symbolic bytes in a path name")
+				}
+				bs[i] = byte(concretise(b))
+			}
+		}
+		s = string(bs)
 	}
 	return cleanPath(s)
 }
@@ -873,7 +892,22 @@ func init() {
 		p := pathArg(a[1])
 		apiExt["gosym_FSMkdir"](fr, []value{path.Dir(p)})
 		n := FS.newNode('l')
-		n.target = argString(a[0])
+		if t, ok := a[0].(string); ok {
+			n.target = t
+		} else {
+			// a target with a few symbolic bytes: concretised by forking
+			ss := a[0].(symstr)
+			bs := make([]byte, len(ss.b))
+			for i, b := range ss.b {
+				switch b := b.(type) {
+				case byte:
+					bs[i] = b
+				case symv:
+					bs[i] = byte(concretise(b))
+				}
+			}
+			n.target = string(bs)
+		}
 		FS.ents[p] = n
 		return nil
 	}
